@@ -354,9 +354,27 @@ pub struct Scenario {
 }
 
 /// Outcome labels recorded by scenario bodies (plain std mutex: not a scheduling point).
-pub static OUTCOMES: Mutex<Vec<String>> = Mutex::new(Vec::new());
+/// Counted per distinct label; the first labels are also kept in order for the replay comparison.
+pub struct Outcomes {
+    pub counts: std::collections::BTreeMap<String, u64>,
+    pub first: Vec<String>,
+}
+pub static OUTCOMES: Mutex<Outcomes> = Mutex::new(Outcomes { counts: std::collections::BTreeMap::new(), first: Vec::new() });
 pub fn outcome(s: String) {
-    OUTCOMES.lock().unwrap_or_else(|e| e.into_inner()).push(s);
+    let mut o = OUTCOMES.lock().unwrap_or_else(|e| e.into_inner());
+    if o.first.len() < 256 {
+        o.first.push(s.clone());
+    }
+    match o.counts.get_mut(&s) {
+        Some(c) => *c += 1,
+        None => {
+            o.counts.insert(s, 1);
+        }
+    }
+}
+fn take_outcomes() -> Outcomes {
+    let mut o = OUTCOMES.lock().unwrap_or_else(|e| e.into_inner());
+    Outcomes { counts: std::mem::take(&mut o.counts), first: std::mem::take(&mut o.first) }
 }
 
 pub fn run_scenarios(o: &Opts, stats: &mut Stats, scenarios: Vec<Scenario>) -> Option<usize> {
@@ -367,10 +385,10 @@ pub fn run_scenarios(o: &Opts, stats: &mut Stats, scenarios: Vec<Scenario>) -> O
         let sc = scenarios.into_iter().find(|s| s.name == name).expect("scenario of the replay file not found");
         println!("replaying schedule of {} steps on scenario {}", schedule.len(), name);
         let a = replay_schedule(&schedule, sc.body.clone());
-        let oa: Vec<String> = std::mem::take(&mut *OUTCOMES.lock().unwrap());
+        let oa: Vec<String> = take_outcomes().first;
         std::env::remove_var("MC_TRACE");
         let b = replay_schedule(&schedule, sc.body.clone());
-        let ob: Vec<String> = std::mem::take(&mut *OUTCOMES.lock().unwrap());
+        let ob: Vec<String> = take_outcomes().first;
         if a.is_some() != b.is_some() || oa != ob {
             eprintln!("MACHINERY: replay not deterministic: {:?}/{:?} vs {:?}/{:?}", a, oa, b, ob);
             std::process::exit(2);
@@ -394,7 +412,7 @@ pub fn run_scenarios(o: &Opts, stats: &mut Stats, scenarios: Vec<Scenario>) -> O
         if let Some(out) = OUT_PATH.lock().unwrap().as_ref() {
             let _ = std::fs::write(out, stats.to_json(Some(idx)).to_string());
         }
-        OUTCOMES.lock().unwrap().clear();
+        let _ = take_outcomes();
         // one failing schedule per scenario: after a failed execution (suspended tasks, held
         // locks) the engine's state is not trusted any more, and the process is restarted
         let (sh, fails) = explore_scenario(idx, &sc.name, sc.bound, sc.cap, sc.body.clone(), 1);
@@ -408,17 +426,11 @@ pub fn run_scenarios(o: &Opts, stats: &mut Stats, scenarios: Vec<Scenario>) -> O
         let e = stats.extra.entry("max_steps_in_one_schedule".into()).or_insert(0);
         *e = (*e).max(sh.max_steps as u64);
         // states = distinct schedule prefixes explored (nodes of the schedule tree)
-        for k in 0..sh.nodes {
-            stats.states.insert(hash64(&(idx, k)));
-        }
+        stats.states_counted += sh.nodes;
         if sh.capped {
             stats.caps_hit.push(format!("scenario {}: stopped after {} schedules (cap)", sc.name, sh.execs));
         }
-        let outs: Vec<String> = std::mem::take(&mut *OUTCOMES.lock().unwrap());
-        let mut distinct: std::collections::BTreeMap<String, u64> = Default::default();
-        for o in outs {
-            *distinct.entry(o).or_insert(0) += 1;
-        }
+        let distinct = take_outcomes().counts;
         for (k, v) in &distinct {
             *stats.outcomes.entry(format!("{}: {}", sc.name, k)).or_insert(0) += v;
         }
